@@ -1,7 +1,7 @@
 """C01 Simple driver returns a solution of A*X=B  —  R3 (dispatch of ?gssv, ?gstrs), R7 (permutation roles in ?gstrs), R9."""
 from ..facts import Program, loc
 from ..run import Check, AnalysisBroken
-from ..rules import r3_dispatch as r3, r9_sibling
+from ..rules import r3_dispatch as r3, r9_sibling, kernels
 from ..rules.effects import PathEffects as Effects
 from ..rules.r3_dispatch import ptr_desc
 from . import _drv
@@ -215,6 +215,7 @@ def run(tier):
             n2 += gstrs_oracle(chk, prog, eff, p, cfgname)
             chk.saw(unit='SRC/%sgssv.c' % p, func='SRC/%sgssv.c:%sgssv' % (p, p))
             chk.saw(unit='SRC/%sgstrs.c' % p, func='SRC/%sgstrs.c:%sgstrs' % (p, p))
+        kernels.run_basic(chk, 'C01.kern', prog, cfgname, ('solve', 'bmod'), floor_scratch=4 if cfgname != 'cblas' else 20)
         if n1 < 4 * 24 or n2 < 4 * 3:
             raise AnalysisBroken('C01: %d/%d leaf valuations explored, floors %d/%d' % (n1, n2, 96, 12))
         chk.notes.append('%s: %d leaf valuations of ?gssv, %d of ?gstrs' % (cfgname, n1, n2))
